@@ -217,6 +217,9 @@ fn altitudes(cx: &Cx) {
                 if let Some(j) = dj(cx, class, &f) {
                     if !alt_ok(std, j["altitude"].as_f64()) {
                         bad(cx, class, format!("TC {tc} altitude code {code:#05x} encodes {} ft, decoded as {} (frame {})", std.unwrap(), j["altitude"], hexs(&f)), &f, json!({"want": std}));
+                    } else if std == Some(0) && j["altitude"].as_f64() != Some(0.0) {
+                        // 0 ft is an encodable value and this member is optional: it must come out as 0, not as null
+                        bad(cx, class, format!("TC {tc} altitude code {code:#05x} encodes 0 ft, decoded as {} (frame {})", j["altitude"], hexs(&f)), &f, json!({"want": std}));
                     } else {
                         cx.reported.fetch_add(1, Ordering::Relaxed);
                     }
@@ -693,7 +696,7 @@ fn df20_as_bds05(cx: &Cx) {
 pub fn run(ctx: &Ctx, rep: &Report) {
     rep.set_rule("every code of every listed field is encoded into a frame by the reference builder and read back from the decoder's JSON; non-trivial = comparisons in which the decoder reported the value");
     rep.assume("sentinel codes (0 = no information, status bit clear, all-ones track-rate magnitude, all-zero / all-one vertical-rate magnitudes in BDS 6,0) and supersonic velocity subtypes are not in the property's quantifier");
-    rep.assume("altitudes <= 0 ft or above 65,535 ft may be reported unavailable; selected altitudes are encoded from the 100-ft grid by rounding to the nearest step");
+    rep.assume("altitudes < 0 ft or above 65,535 ft may be reported unavailable (0 ft too where the result is a bare u16); selected altitudes are encoded from the 100-ft grid by rounding to the nearest step");
     rep.assume("BDS 5,0 / 6,0: inside a conservative plausibility envelope (|roll| <= 45 deg, gs <= 550 kt, TAS 100-480 kt within 150 kt of gs, IAS 100-450 kt with Mach consistent with ISA, |vertical rate| <= 5000 ft/min) the register must be reported; outside it only 'if reported, then correct'");
     let cx = Cx { rep, n: AtomicU64::new(0), reported: AtomicU64::new(0), quiet: false, thin: 1, seq: AtomicU64::new(0) };
     addresses(ctx, &cx);
